@@ -19,7 +19,8 @@ for n in names:
         continue
     t0 = time.time()
     try:
-        r = subprocess.run([os.path.join(V, "check"), pid, "--tier", "quick"], capture_output=True, text=True, cwd=V)
+        r = subprocess.run([os.path.join(V, "check"), pid, "--tier", "quick"], capture_output=True, text=True, cwd=V,
+                           env=dict(os.environ, VERIF_EVIDENCE_DIR="/var/tmp/gluon-verif/seed-evidence"))
     finally:
         subprocess.run(["git", "-C", "/repo", "checkout", "--", "."])
     lines = [l for l in (r.stdout + r.stderr).splitlines() if l.startswith(("VIOLATION", "KNOWN-FINDING", "UNDECIDED", "CHECK-BROKEN")) or "discharged" in l]
